@@ -37,6 +37,7 @@ type RunConfig struct {
 	KeepPaths int // passing paths recorded per harness for cross-execution
 	Verbose   bool
 	CoverFns  map[*ssa.Function]bool
+	Hist      string
 }
 
 type PathRecord struct {
@@ -76,6 +77,7 @@ type RunResult struct {
 	Wall       time.Duration
 	TimedOut   bool
 	PathCapHit bool
+	ForkSites  map[string]int
 }
 
 type workQueue struct {
@@ -159,6 +161,9 @@ func explore(ld *Loaded, cfg RunConfig) (*RunResult, error) {
 		go func(w int) {
 			defer wg.Done()
 			ex := &Exec{tt: NewTermTable(), budget: cfg.Budget, capConc: cfg.CapConc, props: cfg.Props}
+			if cfg.Verbose {
+				ex.forkSites = map[token.Pos]int{}
+			}
 			sol, err := NewSolver(cfg.Solver, cfg.TimeoutMs)
 			if err != nil {
 				errCh <- err
@@ -208,6 +213,13 @@ func explore(ld *Loaded, cfg RunConfig) (*RunResult, error) {
 				}
 				for k, v := range ex.reaches {
 					hs.Reaches[k] += v
+				}
+				if cfg.Hist != "" {
+					key := "hist:"
+					for _, hn := range strings.Split(cfg.Hist, "+") {
+						key += fmt.Sprintf("%s=%d ", hn, ex.chosen[hn])
+					}
+					hs.Reaches[key]++
 				}
 				switch status {
 				case "unsupported":
@@ -265,6 +277,12 @@ func explore(ld *Loaded, cfg RunConfig) (*RunResult, error) {
 			res.SolverQ += sol.Queries
 			res.SolverErrs += sol.Errors
 			res.XDiff += ex.xdiff
+			for p, n := range ex.forkSites {
+				if res.ForkSites == nil {
+					res.ForkSites = map[string]int{}
+				}
+				res.ForkSites[ld.prog.Fset.Position(p).String()] += n
+			}
 			for b := range in.cover {
 				res.Cover[b] = true
 			}
